@@ -80,14 +80,14 @@ META = dict(
     "(statements), the row carries an ORM entity or duplicate names (rows)",
     assumptions=["mapped classes are importable at module level", "single process: class-level attributes keep their identity across the round trip"],
     bounds=dict(
-        quick="objects: histories <= 3 from 2 roots over 27 ops, protocols 2-5, bisimulation with protocol 4 (10 probes at depth <= 2, 5 at depth 3); 43 statements x "
+        quick="objects: histories <= 3 from 2 roots over 27 ops, protocols 2-5, bisimulation with protocol 4 (10 probes at depth <= 2, 3 at depth 3); 43 statements x "
         "protocols; 17 MetaData shapes",
         thorough="objects: histories <= 4, bisimulation with all protocols; MetaData: all pairs of feature deviations (~110 shapes)",
     ),
 )
 SHARD_TIMEOUT = dict(quick=900, thorough=3000)
 PROTOS = (2, 3, 4, 5)
-QUICK_DEEP_PROBES = ("read_rel", "set_flush", "append_flush", "expire_read", "delete_flush")
+QUICK_DEEP_PROBES = ("read_rel", "set_flush", "expire_read")
 
 
 def shards(tier, seed):
@@ -625,8 +625,14 @@ def serializer_problems(PW, e, name, build, kind, proto):
 
 
 def run_shard(shard, tier, rec):
+    import warnings
+
+    import sqlalchemy as sa
+
     from ..worlds import pickleworld as PW
 
+    # misuse histories (objects expunged while still referenced ...) make the session warn; outcomes are compared, not warnings
+    warnings.simplefilter("ignore", sa.exc.SAWarning)
     shard = tuple(shard)
     part = shard[0]
     if part == "obj":
